@@ -3,6 +3,7 @@ package props
 import (
 	"fmt"
 	"reflect"
+	"strconv"
 	"strings"
 	"testing"
 
@@ -427,10 +428,38 @@ func propC17Registry(col *evid.Collector, maxSteps int) func(rt *rapid.T) {
 			doAddReg(kit.Reg{ID: nextID, Life: rapid.IntRange(0, 2).Draw(rt, "replLife"), Form: kit.FormPlain,
 				Outs: []kit.OutSpec{{T: d.Ident.T, Impl: impl}}, Name: d.Ident.Key, HasErr: rapid.Bool().Draw(rt, "replErr")}, false)
 		}
+		// a user's name for an initializer function that looks like the key the collection would
+		// generate next for an unnamed one: two different registrations, both are accepted
+		doShadowGenerated := func() {
+			last := int64(-1)
+			for _, d := range coll.ToSlice() {
+				if d == nil || !d.VoidReturn || d.Key == nil {
+					continue
+				}
+				if ks := fmt.Sprint(d.Key); len(ks) > 1 && ks[0] == 'v' {
+					if n, err := strconv.ParseInt(ks[1:], 36, 64); err == nil && n > last {
+						last = n
+					}
+				}
+			}
+			if last < 0 {
+				doAddReg(kit.Reg{ID: nextID, Life: kit.Scoped, Form: kit.FormVoid}, false)
+				return
+			}
+			// (every registration of an initializer function draws a number, the named one too)
+			doAddReg(kit.Reg{ID: nextID, Life: kit.Scoped, Form: kit.FormVoid, Name: "v" + strconv.FormatInt(last+2, 36)}, false)
+			if f == nil {
+				doAddReg(kit.Reg{ID: nextID, Life: kit.Scoped, Form: kit.FormVoid}, false)
+			}
+		}
 		nsteps := rapid.IntRange(1, maxSteps).Draw(rt, "nsteps")
 		for i := 0; i < nsteps && f == nil; i++ {
 			if rapid.IntRange(0, 9).Draw(rt, "replace") == 0 {
 				doReplace()
+				continue
+			}
+			if rapid.IntRange(0, 14).Draw(rt, "shadowGenerated") == 0 {
+				doShadowGenerated()
 				continue
 			}
 			switch k := rapid.IntRange(0, 11).Draw(rt, "op"); {
